@@ -1,4 +1,5 @@
 import PystogVerif.Gen.Dispatch
+import PystogVerif.Model.Dispatch
 /-!
 Driver: one request per line on stdin, one response per line on stdout.
 
@@ -13,7 +14,8 @@ def handle (line : String) : String :=
     let fill := (parseBits jf.trimAscii.toString).getD 0.0
     let junk : Junk Float := fun _ _ => fill
     let a := (args.map Arg.parse).toArray
-    match Gen.dispatch entry.trimAscii.toString kw junk a with
+    let e := entry.trimAscii.toString
+    match (if e.startsWith "Stog." || e.startsWith "Model." then Model.dispatch e a else Gen.dispatch e kw junk a) with
     | .ok vs => s!"{id} ok " ++ "|".intercalate (vs.map showVec)
     | .error e => s!"{id} err {e}"
   | _ => "? err malformed-request"
